@@ -238,6 +238,10 @@ func (s *slicer) walk(v ssa.Value, visit func(ssa.Value), depth int) {
 		s.walk(x.X, visit, depth+1)
 	case *ssa.Lookup:
 		s.walk(x.X, visit, depth+1)
+	case *ssa.Next:
+		s.walk(x.Iter, visit, depth+1)
+	case *ssa.Range:
+		s.walk(x.X, visit, depth+1)
 	case *ssa.Alloc:
 		for _, st := range storesTo(x) {
 			s.walk(st, visit, depth+1)
